@@ -404,28 +404,38 @@ theorem stamp_ref_of_info (r inst schema : Json) (e : Err) (h : e.info.isSome = 
     rw [if_pos (Or.inr rfl)]
     rfl
 
-theorem scopeOf_none {cfg : Cfg} {kvs : List (Str × Json)} (h : Json.lookup cfg.idKey kvs = none) :
+/-- no scope without an id — or next to a `$ref` key -/
+theorem scopeOf_none {cfg : Cfg} {kvs : List (Str × Json)}
+    (h : Json.lookup cfg.idKey kvs = none ∨ Json.hasKey (skey "$ref") kvs = true) :
     scopeOf cfg kvs = .ok none := by
-  simp only [scopeOf, h]
+  unfold scopeOf
+  split
+  · rfl
+  · rcases h with h | h
+    · rw [h]
+    · contradiction
 
 theorem scopeOf_str {cfg : Cfg} {kvs : List (Str × Json)} {ident : Str}
-    (h : Json.lookup cfg.idKey kvs = some (.str ident)) (hne : ident ≠ []) :
+    (h : Json.lookup cfg.idKey kvs = some (.str ident)) (hne : ident ≠ [])
+    (hnr : Json.hasKey (skey "$ref") kvs = false) :
     scopeOf cfg kvs = .ok (some ident) := by
-  simp only [scopeOf, h]
+  simp only [scopeOf, h, hnr]
   cases ident with
   | nil => exact absurd rfl hne
   | cons c cs => rfl
 
 theorem evalStep_obj_noId (env : Env) (impl : FmtImpl) (cfg : Cfg) (rec : Rec)
-    (kvs : List (Str × Json)) (inst : Json) (hid : Json.lookup cfg.idKey kvs = none) :
+    (kvs : List (Str × Json)) (inst : Json)
+    (hid : Json.lookup cfg.idKey kvs = none ∨ Json.hasKey (skey "$ref") kvs = true) :
     evalStep env impl cfg rec inst (.obj kvs) = schemaBody env impl cfg rec inst kvs := by
   simp only [evalStep, scopeOf_none hid, withScopeOpt]
 
 theorem evalStep_obj_id (env : Env) (impl : FmtImpl) (cfg : Cfg) (rec : Rec)
     (kvs : List (Str × Json)) (ident : Str) (inst : Json)
-    (hid : Json.lookup cfg.idKey kvs = some (.str ident)) (hne : ident ≠ []) :
+    (hid : Json.lookup cfg.idKey kvs = some (.str ident)) (hne : ident ≠ [])
+    (hnr : Json.hasKey (skey "$ref") kvs = false) :
     evalStep env impl cfg rec inst (.obj kvs) = withScope env ident (schemaBody env impl cfg rec inst kvs) := by
-  simp only [evalStep, scopeOf_str hid hne, withScopeOpt]
+  simp only [evalStep, scopeOf_str hid hne hnr, withScopeOpt]
 
 theorem schemaBody_ref (env : Env) (impl : FmtImpl) (d : Draft) (fc : Option FormatChecker) (rec : Rec)
     (kvs : List (Str × Json)) (r : Str) (inst : Json)
